@@ -313,6 +313,12 @@ def extreme_unit(F, S, struct, rid, transform=None):
             okb = (cur, mn)
             break
         why = why or bad
+    c_ = fieldclass.ctor(F, struct)
+    fill = tr0(c_["fields"].get(buf)) if c_ and c_["ok"] is not None else None
+    if not (isinstance(fill, tuple) and fill[0] == "fromelem" and fill[1] == cf(math.inf)):
+        S.bad(rid, "extreme-fill", struct, "%s fills its window with %s: unfilled slots must hold the value that can never win (%s), otherwise a value that was never fed can be returned during warm-up"
+              % (struct, show(c_["fields"].get(buf)[1]) if c_ and isinstance(c_["fields"].get(buf), tuple) else "?", "+inf for Minimum, -inf for Maximum"), loc(fn.span))
+        return
     if okb is None:
         S.bad(rid, "extreme-step", struct, "%s::next is not the cached-extreme step (store at the cursor; take the new value if it beats the cached extreme; rescan iff the cached slot was overwritten): %s" % (struct, why), loc(fn.span))
         return
